@@ -102,6 +102,20 @@ func Profile(name string, seed int64, tier string) HistOpts {
 		o.Node.Period = 6
 		o.AbsentPct = 5
 		o.Malformed = 2
+	case "govrestart": // governance traffic on a disk node that is stopped and reopened after about a quarter of the commits:
+		// votes committed before a restart must still count, and still block a second vote, afterwards
+		w := DefaultWeights()
+		for _, t := range []tx.TxType{tx.TypeSetHaltBlock, tx.TypeVoteUpdate, tx.TypeVoteCommission} {
+			w[t] = 80
+		}
+		o.Weights = w
+		o.Gen = GenOpts{Candidates: 7, ValidatorN: 3, BigStakes: false}
+		o.NearVotes = true
+		o.Node.Period = 6
+		o.Node.Disk = true
+		o.Restarts = 30
+		o.Malformed = 2
+		o.CheckTx = false
 	case "malformed":
 		o.Malformed = 60
 		o.CheckTx = true
